@@ -67,6 +67,14 @@ Proof.
 Qed.
 Print Assumptions C18_adapt_builds_wellformed_graph.
 
+(* the node order of the built graph is the one LinkedGraph.add_node produces: the fuel-bounded
+   recursion of the model follows the (fuel-free) big-step recursion of the code, whenever the
+   accumulated node list is duplicate-free and made of graph nodes - which graph_order maintains *)
+Theorem C18_add_node_fuel_sufficient : forall ns u acc,
+  order_inv ns acc -> AddNode ns u acc (add_node (S (List.length ns)) ns u acc).
+Proof. exact graph_order_fuel. Qed.
+Print Assumptions C18_add_node_fuel_sufficient.
+
 (* DumbNetworkxAdapter: the same two round trips, with the very same node objects *)
 Theorem C18_dumb_nx_roundtrip : forall n0 (G : nxg onode),
   nx_wf G -> NoDup (map (fun ka => ouid (snd ka)) (nodes G)) ->
